@@ -87,11 +87,9 @@ def build(g):
             def __bool__(self):
                 return False
 
-        class P:
-            def __init__(self, **kw):
-                for k, v in kw.items():
-                    setattr(self, k, v)
-
+        class P(C):
+            # the class of rule P is a Python subclass of the class of rule C: the types of the model
+            # API are the rules, an object of rule P is not "of type C"
             def __len__(self):
                 return 0
         mm1 = metamodel_from_str(gram.render_grammar(V1), classes=[C, P])
